@@ -81,30 +81,56 @@ func cameThrough(cond ssa.Value, pol bool) (*ssa.Phi, int, bool) {
 		return bp, cand, true
 	}
 	bo, ok := cond.(*ssa.BinOp)
-	if !ok || (bo.Op != token.EQL && bo.Op != token.NEQ) {
+	if !ok {
+		return nil, 0, false
+	}
+	// integer sentinel: `φ != -1`, `φ >= 0`, `!(φ < 0)` ... where every incoming edge but one is
+	// a constant that the comparison rules out
+	if ph, isPhi := bo.X.(*ssa.Phi); isPhi {
+		if k, isK := constInt(bo.Y); isK {
+			switch bo.Op {
+			case token.EQL, token.NEQ, token.LSS, token.LEQ, token.GTR, token.GEQ:
+				cand, n := -1, 0
+				for i, e := range ph.Edges {
+					if ek, isEK := constInt(e); isEK {
+						holds := false
+						switch bo.Op {
+						case token.EQL:
+							holds = ek == k
+						case token.NEQ:
+							holds = ek != k
+						case token.LSS:
+							holds = ek < k
+						case token.LEQ:
+							holds = ek <= k
+						case token.GTR:
+							holds = ek > k
+						case token.GEQ:
+							holds = ek >= k
+						}
+						if holds != pol {
+							continue // this edge's constant contradicts the guard
+						}
+					}
+					cand = i
+					n++
+				}
+				if n != 1 {
+					return nil, 0, false
+				}
+				return ph, cand, true
+			}
+		}
+	}
+	if bo.Op != token.EQL && bo.Op != token.NEQ {
 		return nil, 0, false
 	}
 	ph, ok := bo.X.(*ssa.Phi)
 	if !ok {
 		return nil, 0, false
 	}
-	// integer sentinel: `φ != -1` where every other edge is the constant -1
-	if k, isK := constInt(bo.Y); isK {
-		if (bo.Op == token.NEQ) != pol {
-			return nil, 0, false // φ == k: several edges may carry k
-		}
-		cand, n := -1, 0
-		for i, e := range ph.Edges {
-			if ek, isEK := constInt(e); isEK && ek == k {
-				continue
-			}
-			cand = i
-			n++
-		}
-		if n != 1 {
-			return nil, 0, false
-		}
-		return ph, cand, true
+	if _, isK := constInt(bo.Y); isK {
+		return nil, 0, false
 	}
 	if !isNilConst(bo.Y) {
 		return nil, 0, false
